@@ -38,8 +38,12 @@ def uri_of(path):
 
 
 class LsClient:
-    def __init__(self, binary, root, home, timeout=180.0, log=None):
+    def __init__(self, binary, root, home, timeout=180.0, log=None, close_handled=False):
         self.root = root
+        # does Backend implement did_close (extracted from backend.rs by the translator)?  Then closing a buffer
+        # the server knows queues one background task, and willRename/willDelete forget the buffer.
+        self.close_handled = close_handled
+        self.server_docs = set()
         self.timeout = timeout
         env = dict(os.environ)
         env.update({"HOME": home, "XDG_CACHE_HOME": os.path.join(home, ".cache"),
@@ -192,6 +196,7 @@ class LsClient:
         u = uri_of(path)
         if background:
             self.tasks += 1
+        self.server_docs.add(u)
         self.notify("textDocument/didOpen", {"textDocument": {"uri": u, "languageId": "veryl", "version": v, "text": text}})
         self.pump_until(lambda: self.publish_count.get((u, v), 0) >= 1, "publishDiagnostics after didOpen")
         return self.diags[u][1]
@@ -201,6 +206,7 @@ class LsClient:
         v = self._new_version()
         u = uri_of(path)
         self.tasks += 1
+        self.server_docs.add(u)
         self.notify("textDocument/didOpen", {"textDocument": {"uri": u, "languageId": "veryl", "version": v, "text": text}})
         return u, v
 
@@ -226,9 +232,15 @@ class LsClient:
         self.notify("textDocument/didSave", {"textDocument": {"uri": uri_of(path)}})
 
     def did_close(self, path):
-        self.notify("textDocument/didClose", {"textDocument": {"uri": uri_of(path)}})
+        u = uri_of(path)
+        if self.close_handled and u in self.server_docs:
+            self.tasks += 1
+        self.server_docs.discard(u)
+        self.notify("textDocument/didClose", {"textDocument": {"uri": u}})
 
     def will_rename(self, old, new):
+        if self.close_handled:
+            self.server_docs.discard(uri_of(old))
         return self.request("workspace/willRenameFiles", {"files": [{"oldUri": uri_of(old), "newUri": uri_of(new)}]})
 
     def did_rename(self, old, new):
@@ -237,6 +249,8 @@ class LsClient:
         self.notify("workspace/didRenameFiles", {"files": [{"oldUri": uri_of(old), "newUri": uri_of(new)}]})
 
     def will_delete(self, path):
+        if self.close_handled:
+            self.server_docs.discard(uri_of(path))
         return self.request("workspace/willDeleteFiles", {"files": [{"uri": uri_of(path)}]})
 
     def quiesce(self):
@@ -248,8 +262,15 @@ class LsClient:
         self.request("workspace/symbol", {"query": "\u0001no-such-symbol\u0001"})
 
     def symbols(self):
-        r = self.request("workspace/symbol", {"query": ""})
-        return r.get("result") or []
+        """all symbols whose name contains an upper-case letter other than T.  (An empty query - or any query matching
+        a builtin symbol such as `$clog2`, `clock_gen`, `T` - makes a debug build panic in server.rs to_location
+        (`token.line - 1` with line 0); builtin names are lower case, so upper-case queries avoid them.)"""
+        out = {}
+        for q in "ABCDEFGHIJKLMNOPQRSUVWXYZ":
+            r = self.request("workspace/symbol", {"query": q})
+            for s in r.get("result") or []:
+                out[json.dumps(s, sort_keys=True)] = s
+        return list(out.values())
 
     def close(self):
         try:
